@@ -298,6 +298,25 @@ def concurrent_pairs(c, rep):
                 res.add(tuple(sorted([la[0], lb[0]])))
     return res
 
+def _lockshape():
+    import sys
+    tools = os.path.join(C.VERIF, "tools")
+    if tools not in sys.path:
+        sys.path.insert(0, tools)
+    import lockshape
+    return lockshape
+
+def mem_snapshot_shape(facts):
+    """'two-sections' | 'nested' | 'other' — how memory create_group_snapshot / rollback_group_to_snapshot
+    take their two locks in the CURRENT source (from the regenerated fact lockShape)"""
+    shape = (facts or {}).get("lockShape", "")
+    cr, rb = _lockshape().parse_sections(shape, 0, 27), _lockshape().parse_sections(shape, 0, 28)
+    if cr == [[(0, 0)], [(1, 1)]] and rb == [[(1, 1)], [(0, 1)]]:
+        return "two-sections"
+    if cr == [[(1, 1)], [(1, 1), (0, 0)]] and rb == [[(1, 1)], [(1, 1), (0, 1)]]:
+        return "nested"
+    return "other"
+
 def classify_nonlinearizable(c, rep, facts=None):
     """mechanism signature of a non-linearizable history, from the ops of the case and the regenerated lock shape"""
     kinds = {l.split()[0] for t in c["threads"] for l in t}
@@ -305,8 +324,8 @@ def classify_nonlinearizable(c, rep, facts=None):
         # memory save_message in more than one lock section (existence check under the read lock, insertion under
         # the write lock) is the repaired defect; only then can a save_message / rollback race be that mechanism
         shape = (facts or {}).get("lockShape", "")
-        m = re.search(r'\(0, 4, "save_message", \[([^\]]*)\]', shape)
-        save_message_split = bool(m) and m.group(1).count("(") > 1
+        secs = _lockshape().parse_sections(shape, 0, 4)
+        save_message_split = bool(secs) and len(secs) > 1
         if "snap_rollback" in kinds and "save_message" in kinds and (save_message_split or facts is None):
             return "mem-save-message-check-then-act"
         if kinds & {"snap_create", "snap_rollback"}:
